@@ -1049,7 +1049,8 @@ def run_shard(spec, rec):
             ast, rnd = ex
             for f in run_texts(family(ast, rnd), rec):
                 rec.fail(**f)
-        hyp_run(st.tuples(seed_strategy(), st.randoms(use_true_random=False)), body, spec['examples'], (ID, spec['shard']), rec)
+        # the generator of the family is seeded by a drawn integer: every draw happens before the body (the budget guard may skip a body)
+        hyp_run(st.tuples(seed_strategy(), st.integers(0, 2 ** 62).map(random.Random)), body, spec['examples'], (ID, spec['shard']), rec)
     elif spec['kind'] == 'wrapped':
         items = wrapped_items(spec['part'], spec['parts'])
         for i in range(0, len(items), 40):
